@@ -334,7 +334,7 @@ func incStr(inc [2]*bool) string {
 
 func compoundCases(r *mc.Run) []qcase {
 	ls := gen.Leaves()
-	red := gen.Reduced(ls, mc.Pick(r, 6, 3), "phrase", "mphrase")
+	red := gen.Reduced(ls, mc.Pick(r, 8, 3), "mphrase")
 	var cs []qcase
 	for _, a := range red {
 		for _, b := range red {
@@ -446,11 +446,11 @@ func checkJSONQuery(r *mc.Run, ts []target, c qcase, st *a1state, part string) s
 			continue
 		}
 		if r1 != r2 {
-			what := "scores-differ"
+			what := "only the scores differ"
 			if idsOf(r1) != idsOf(r2) {
-				what = "hits-differ"
+				what = "the hit sets differ"
 			}
-			class = fail(what, fmt.Sprintf("%s: original %s | after JSON (%T) %s | json %s", t, r1, q2, r2, b))
+			class = fail("results-differ", fmt.Sprintf("%s: %s: original %s | after JSON (%T) %s | json %s", t, what, r1, q2, r2, b))
 			continue
 		}
 		if nh < 0 {
@@ -516,7 +516,6 @@ func sortForms() []struct {
 		}
 		return search.SortOrder{g, &search.SortDocID{Desc: true}}
 	}, 2})
-	out = append(out, sf{"(nil sort)", func() search.SortOrder { return nil }, 0})
 	return out
 }
 
@@ -994,9 +993,9 @@ func checkParsedJSONCopy(r *mc.Run, t target, s, js, r1, e1 string, q query.Quer
 	if r3 == r1 && (e1 == "") == (e3 == "") {
 		return
 	}
-	what := "scores-differ"
+	what := "only the scores differ"
 	if idsOf(r1) != idsOf(r3) || (e1 == "") != (e3 == "") {
-		what = "hits-differ"
+		what = "the hit sets differ"
 	}
 	cause := "other"
 	if emptyClause(q, theAnalyse) {
@@ -1004,8 +1003,8 @@ func checkParsedJSONCopy(r *mc.Run, t target, s, js, r1, e1 string, q query.Quer
 		// that analyses to nothing is skipped instead of matching nothing); JSON has no key for it
 		cause = "clause-analyses-to-nothing(query-string-mode flag not serialised)"
 	}
-	r.Violation(fmt.Sprintf("json-query:%s:parsed-query-string:%s", what, cause),
-		fmt.Sprintf("query string %q on %s: Parse() result gives %s (%s); its JSON copy %s gives %s (%s)", s, t, r1, e1, js, r3, e3), rep)
+	r.Violation("json-query:results-differ:parsed-query-string:"+cause,
+		fmt.Sprintf("query string %q on %s: %s: Parse() result gives %s (%s); its JSON copy %s gives %s (%s)", s, t, what, r1, e1, js, r3, e3), rep)
 }
 
 // ---------------------------------------------------------------------------------------
@@ -1093,6 +1092,7 @@ func sentenceText(cs []sclause, sep string) string {
 }
 
 func checkSentence(r *mc.Run, ts []target, rdocs []*ref.RDoc, cs []sclause, sep string) {
+	light := r.Quick() && len(cs) == 3 // quick tier: three-clause sentences on scorch only, without the JSON copy
 	s := sentenceText(cs, sep)
 	rq := &ref.Q{Kind: "boolean"}
 	haveRef := true
@@ -1130,7 +1130,7 @@ func checkSentence(r *mc.Run, ts []target, rdocs []*ref.RDoc, cs []sclause, sep 
 	signClass := strings.Join(signs, "+")
 	rep := map[string]any{"query_string": s, "part": "c"}
 	for _, t := range ts {
-		if t.layout != "per-doc" {
+		if t.layout != "per-doc" || (light && t.eng != "scorch") {
 			continue
 		}
 		r1, ids, e1, pv1, s1 := runQuery(t.idx, bleve.NewQueryStringQuery(s))
@@ -1180,6 +1180,9 @@ func checkSentence(r *mc.Run, ts []target, rdocs []*ref.RDoc, cs []sclause, sep 
 		}
 		if t.eng == "scorch" {
 			r.Outcome(fmt.Sprintf("c|%s|hits=%d", signClass, len(ids)))
+		}
+		if light {
+			continue
 		}
 		// (a3) the parsed sentence through JSON
 		if pq, err := bleve.NewQueryStringQuery(s).Parse(); err == nil {
@@ -1260,6 +1263,11 @@ func Run(r *mc.Run) {
 		"the reference evaluator's _all field is the union of the text tokens of all fields (numeric/date terms of _all are binary and cannot equal a word)",
 		"a lexer failure reported through panic/recover inside the parser ('unterminated quote') is an ordinary rejection; only Go runtime errors surfacing that way are flagged")
 
+	t0 := time.Now()
+	lap := func(part string) {
+		r.Note("seconds_"+part, math.Round(time.Since(t0).Seconds()*10)/10)
+		t0 = time.Now()
+	}
 	// ---- (a1)
 	leaves := leafCases()
 	comps := compoundCases(r)
@@ -1279,6 +1287,7 @@ func Run(r *mc.Run) {
 	}
 	r.Count("a1_queries", int64(len(leaves)+len(comps)))
 
+	lap("a1")
 	// ---- (a2)
 	reqs := requestCases(r)
 	r.Note("a2_requests", len(reqs))
@@ -1288,6 +1297,7 @@ func Run(r *mc.Run) {
 	}
 	r.Count("a2_requests", int64(len(reqs)))
 
+	lap("a2")
 	// ---- (c)
 	base := clauseAlphabet(r)
 	var signed []sclause
@@ -1315,6 +1325,7 @@ func Run(r *mc.Run) {
 	})
 	r.Count("c_sentences", nsent.Load())
 
+	lap("c")
 	// ---- (b)
 	if r.Expired() {
 		r.Cap("deadline before part (b)")
@@ -1323,7 +1334,6 @@ func Run(r *mc.Run) {
 	// one work item = all strings with a given two-symbol prefix (plus, in item 0, the strings shorter than 2)
 	n := len(alphabet)
 	items := n * n
-	type cur struct{ s atomic.Value }
 	var total, accepted, rejected, executed atomic.Int64
 	var hung atomic.Bool
 	r.ParFor(items, 0, func(it int) {
@@ -1381,6 +1391,7 @@ func Run(r *mc.Run) {
 	if r.Expired() {
 		r.Cap("deadline inside part (b): string subtrees were cut short")
 	}
+	lap("b")
 	r.Count("b_strings", total.Load())
 	r.Count("b_accepted", accepted.Load())
 	r.Count("b_rejected", rejected.Load())
